@@ -269,6 +269,28 @@ def r3_edges(ctx, rep):
                     (f"edge is only drawn under `{bad_guard[0]}`: an edge to a node already in the graph is dropped"
                      if bad_guard else f"endpoint(s) {other} are not added to hop_nodes in the same iteration")),
                    py.nloc(n))
+    # a neighbour joins the hop only if it is not in the graph yet: the node limit counts len(hop) + len(self.added), so a
+    # node that is already drawn must not be counted again (sibling agreement of the `not in self.added` guard)
+    for cls in graph_classes(py):
+        fn = py.classes[cls].methods["add_node"]
+        for n in ast.walk(fn):
+            if not (isinstance(n, ast.Call) and call_name(n) == "hop_nodes.add" and n.args):
+                continue
+            x = ast.unparse(n.args[0])
+            guards = []
+            p = n
+            while p is not fn:
+                p = py.parents[p]
+                if isinstance(p, ast.If):
+                    guards += [c for c in ast.walk(p.test) if isinstance(c, ast.Compare) and len(c.ops) == 1
+                               and isinstance(c.ops[0], ast.NotIn) and ast.unparse(c.left) == x]
+            ok = any(ast.unparse(g.comparators[0]) == "self.added" for g in guards)
+            rep.ob(f"{cls}.add_node: `{x}` joins the hop only if it is not drawn yet", ok,
+                   "guarded by `not in self.added`" if ok else
+                   f"`hop_nodes.add({x})` is {'guarded by `' + ast.unparse(guards[0]) + '`' if guards else 'unguarded'}, not by "
+                   f"`{x} not in self.added` as in the sibling graph classes: nodes that are already in the graph are counted again "
+                   f"against graph_maxnodes, so the hop is rejected and every edge of the graph is dropped although the nodes fit",
+                   py.nloc(n), nontrivial=not ok)
     fn = py.func("FortranGraph.add_to_graph")
     body = [s for s in fn.body if not isinstance(s, ast.Expr)]
     emits_n = [s for s in body if isinstance(s, ast.For) and "self.dot.node" in ast.unparse(s)]
